@@ -4,12 +4,14 @@ func init() {
 	register(propSpec{
 		ID: "C09", Pkg: "props/c09", NeedCLI: true,
 		Rule: "cases: (a) every ordered pair of sequences of length 1..4 over {A,C} (quick) / 1..5 over {A,C,G} (thorough), and of length 1..4 over {a,C} and {A,a} (thorough also {A,a,C}), x 54 schemes (match 1,2,5; mismatch -1,-4; extend -0.5,-1,-3; open = extend, extend-1, -10), and every ordered pair of length 1..3 (1..4) over {A,R,N}, {G,S,B}, {Q,E,L}, {F,I,Z} with the built-in matrices x 4 gap settings, and of length 1..4 over {E,D,A,R} with BLOSUM62, open -3.5, extend -0.5; of length 1..3 over the soft-masked {a,R,n}, {q,E,l}; every entry of EDNAFULL (16x16) and BLOSUM62 (24x24) pinned through a flanked pair, with one or both letters in lower case too; " +
-			"(b) random pairs of length 1..40, IUPAC DNA (U sometimes) or protein (20 aa + B,Z,X,*), the second sequence usually a mutated window (substitutions, block insertions/deletions) of the first between random flanks, low-complexity pools included, half of the pairs soft-masked (one or both sequences entirely, in a window, or residue by residue in lower case), with match/mismatch schemes (multiples of 0.5, open <= extend < 0, open = extend included) or the built-in matrices; (c) both algorithms of the aligner incl. refused characters and soft-masked input for the inputs-unmodified clause; (d) goalign sw executions with every subset of --match/--mismatch/--gap-open/--gap-extend, -l log, -o, 1/2/3 input sequences. " +
+			"(b) random pairs of length 1..40, IUPAC DNA (U and the unknown-base X sometimes: every character of the nucleotide index map) or protein (20 aa + B,Z,X,*), the second sequence usually a mutated window (substitutions, block insertions/deletions) of the first between random flanks, low-complexity pools included, half of the pairs soft-masked (one or both sequences entirely, in a window, or residue by residue in lower case), with match/mismatch schemes (multiples of 0.5, open <= extend < 0, open = extend included, extend down to -15 and open down to -25, long copies with one block indel so that gapped optima exist under expensive gaps) or the built-in matrices; in two thirds of the cases the aligner is configured by a drawn history of setter calls (the three setters in any order, setters with default values left out, earlier calls with other values overwritten later), and the enumerated grids run through all six orders of the three setters; (c) both algorithms of the aligner incl. refused characters and soft-masked input for the inputs-unmodified clause; (d) goalign sw executions with every subset of --match/--mismatch/--gap-open/--gap-extend, -l log, -o, 1/2/3 input sequences. " +
 			"Oracle: validity predicate on the returned rows (equal lengths = Length(), no all-gap column, rows without gaps = input[AlignStarts..AlignEnds] inclusive, byte for byte (case included), matches/mismatches/gaps recounted from the rows and adding up to Length(), Alignment object = Seq1Ali/Seq2Ali, inputs byte-identical afterwards); when the optimum of an independent three-state Gotoh dynamic program is > 0: score of the returned rows recomputed under gap(n)=open+(n-1)*extend == MaxScore() == Gotoh optimum, exactly; for inputs of length <= 3 the Gotoh optimum is itself compared with a one-by-one enumeration of all local alignments; the matrices are the oracle's own copies of NUC.4.4(+U=T) and NCBI BLOSUM62, checked for symmetry. " +
 			"Non-trivial: optimum > 0 and (the returned alignment contains a gap, or starts at position 0 of a sequence, or is not the whole of both sequences); for the inputs-unmodified run: neither sequence is a palindrome; distinct = distinct (s1,s2,scheme)",
 		Assumptions: []string{
 			"positions reported by AlignStarts/AlignEnds are 0-based and inclusive (doc comment 'Indices of alignment end', cmd/sw.go log)",
 			"sequences have at least one residue",
+			"the setters are independent: the configuration is the last value given to each (defaults open -10, extend -0.5, built-in matrix when SetScore was never called), whatever the order of the calls",
+			"X in a nucleotide sequence is the unknown base and is scored as N (goalign's nucleotide index map lists it; EMBOSS reads it that way); a refusal of a nucleotide pair containing X is a violation",
 			"lower case (soft-masked) letters: the built-in matrices score the letter whatever its case; for match/mismatch schemes and for the match/mismatch counts the documentation does not say whether a and A match, so a case-sensitive and a case-folded reading are both accepted (counted as ambiguous when only the second fits) - but the reported score, the score of the returned rows, the optimum and the counts must all hold under one and the same reading",
 			"which built-in matrix applies: a pair drawn as protein that contains a letter which is no nucleotide code (Q,E,I,L,F,P,Z) is scored with BLOSUM62, a pair drawn as DNA with EDNAFULL; a protein pair made only of letters that are nucleotide codes too is open: either matrix, or a refusal when a letter is outside EDNAFULL, is accepted and counted as ambiguous",
 			"match/mismatch/gap counts are read as: identical residues / different residues / columns holding a gap",
